@@ -2,6 +2,7 @@ import NavisModel.Model.Heap
 import NavisModel.Model.HeapDeep
 import NavisModel.Model.InputWrites
 import NavisModel.Gen.CopySpec
+import NavisModel.Gen.ParSpec
 import NavisModel.Drv.Proto
 /-!
 Line protocol for C03 (heap model).  All payloads are blank-separated `key=value` words.
@@ -27,6 +28,9 @@ Line protocol for C03 (heap model).  All payloads are blank-separated `key=value
   (a dict of lists / a list of arrays with contents `v1, v2, …`) copied with the given mode (or the mode the generated
   `CopySpec.nestedMode` records for `cls.attr`, e.g. `TreeNeuron.tags`), then edited through the copy:
   `mode=<…> frame=<0|1> in=<contents of the input afterwards> out=<contents of the copy>`
+* `c03.parmap ip=<0|1> k=<members> forced=<0|1|gen> pooled=<0|1|gen> init=… body=…` → the `map_neuronlist` wrapper called with
+  `parallel=True` (`gen` = the value the translator extracted into `Gen/ParSpec`): same fields as `c03.maplist`
+  (`samelist ext recv res in out`) plus `forced=<0|1> pooled=<0|1>`
 * `c03.annot key=<file:function>` → `col=<a,b|-> attr=<…|-> via=<…|->` the documented annotations of that function
 -/
 namespace Navis.Drv.C03
@@ -213,6 +217,30 @@ def run (cmd rest : String) : Option String :=
     let sh (l : List Int) : String := if l.isEmpty then "-" else ",".intercalate (l.map toString)
     let ms := match mode with | .shallow => "shallow" | .deep1 => "deep1"
     pure s!"mode={ms} frame={b01 (Navis.HeapDeep.frameB s t)} in={sh (Navis.HeapDeep.absOf t r)} out={sh (Navis.HeapDeep.absOf t p.2)}"
+  | "parmap" => do
+    let ip ← (look m "ip") >>= pBool
+    let k ← (look m "k") >>= String.toNat?
+    let flag (key : String) (gen : Bool) : Option Bool := match look m key with
+      | some "gen" => some gen
+      | some v => pBool v
+      | none => some gen
+    let forced ← flag "forced" Navis.Gen.ParSpec.forced
+    let pooled ← flag "pooled" Navis.Gen.ParSpec.pooled
+    let (vals, info) ← (look m "init") >>= pInit
+    let b ← (look m "body") >>= pBody
+    let build (p : Store × List Ref) (i : Nat) : Store × List Ref :=
+      let q := addObj p.1 (vals.map fun v => v.map (· + 100 * (i : Int))) (info + i)
+      (q.1, p.2 ++ [q.2])
+    let p := (List.range k).foldl build (({} : Store), [])
+    let q := p.1.allocLst p.2
+    let s := q.1
+    let l := q.2
+    let r := mapListPar b s l ip true forced pooled
+    let n := s.objs.length
+    pure (s!"samelist={b01 (r.2 == l)} ext={b01 (extendsB s r.1)} forced={b01 forced} pooled={b01 pooled} " ++
+      s!"recv={".".intercalate ((r.1.lst l).map (showMember n))} res={".".intercalate ((r.1.lst r.2).map (showMember n))} " ++
+      s!"in={"|".intercalate (p.2.map fun x => showAbs (r.1.abs x))} " ++
+      s!"out={"|".intercalate ((r.1.lst r.2).map fun x => showAbs (r.1.abs x))}")
   | "annot" => do
     let key ← look m "key"
     let sh (l : List String) : String := if l.isEmpty then "-" else ",".intercalate l
